@@ -6,7 +6,7 @@
    Pi(T+t,-t) - Pi(T,t) - p(T,t) = 0.0001 t + 0.000042 T^2 t + 0.000042 T t^2 + 0.000006 t^3 arcsec:
    the composed rotation differs from the identity by a commutator of size
    2 |eta'| |delta| + |eta' + eta|; chords (Euclidean distance of unit vectors) measure it. *)
-From Coq Require Import Reals ZArith Lra Lia Psatz.
+From Coq Require Import Reals ZArith Lra Lia Psatz Nsatz.
 From Interval Require Import Tactic.
 From PyLib Require Import PyVal Ideal Sphere.
 From Spec Require Import AngleSpec Precession.
@@ -39,4 +39,267 @@ Theorem rot_equ_there_and_back j0 j1 v :
 Proof.
   intros T t T' t'. unfold T', t'. rewrite (cen_add j0 j1), (cen_opp j0 j1). fold T t.
   rewrite zeta_back, z_back, theta_back. rewrite !d2r_opp_div. apply rot_equ_inv.
+Qed.
+
+(* ------------------------------------------------------------------ *)
+(** * chords: Euclidean distance between vectors; rotations are isometries and move a vector by
+      at most the arc *)
+Definition vadd (u v : vec) : vec :=
+  let '(a, b, c) := u in let '(d, e, f) := v in (a + d, b + e, c + f).
+Definition vsub (u v : vec) : vec :=
+  let '(a, b, c) := u in let '(d, e, f) := v in (a - d, b - e, c - f).
+Definition vnorm (u : vec) : R := sqrt (dot u u).
+Definition chord (u v : vec) : R := vnorm (vsub u v).
+
+Lemma dot_self_nonneg u : 0 <= dot u u.
+Proof. destruct u as [[x y] z]. unfold dot. nra. Qed.
+
+Lemma vnorm_nonneg u : 0 <= vnorm u.
+Proof. apply sqrt_pos. Qed.
+
+Lemma vnorm_sqr u : vnorm u * vnorm u = dot u u.
+Proof. apply sqrt_sqrt, dot_self_nonneg. Qed.
+
+Lemma dot_CS a b : dot a b * dot a b <= dot a a * dot b b.
+Proof.
+  destruct a as [[a1 a2] a3], b as [[b1 b2] b3]. unfold dot.
+  assert (H : (a1 * a1 + a2 * a2 + a3 * a3) * (b1 * b1 + b2 * b2 + b3 * b3)
+              - (a1 * b1 + a2 * b2 + a3 * b3) * (a1 * b1 + a2 * b2 + a3 * b3)
+              = (a1 * b2 - a2 * b1) * (a1 * b2 - a2 * b1) + (a1 * b3 - a3 * b1) * (a1 * b3 - a3 * b1)
+                + (a2 * b3 - a3 * b2) * (a2 * b3 - a3 * b2)) by ring.
+  pose proof (Rle_0_sqr (a1 * b2 - a2 * b1)). pose proof (Rle_0_sqr (a1 * b3 - a3 * b1)).
+  pose proof (Rle_0_sqr (a2 * b3 - a3 * b2)). unfold Rsqr in *. lra.
+Qed.
+
+Lemma dot_le_norms a b : dot a b <= vnorm a * vnorm b.
+Proof.
+  pose proof (dot_CS a b) as H. pose proof (vnorm_nonneg a). pose proof (vnorm_nonneg b).
+  rewrite <- (vnorm_sqr a), <- (vnorm_sqr b) in H.
+  destruct (Rle_dec (dot a b) 0); [nra|].
+  apply Rnot_lt_le. intro Hc. assert (0 <= vnorm a * vnorm b) by nra. nra.
+Qed.
+
+Lemma dot_vadd a b : dot (vadd a b) (vadd a b) = dot a a + 2 * dot a b + dot b b.
+Proof. destruct a as [[? ?] ?], b as [[? ?] ?]. unfold dot, vadd. ring. Qed.
+
+Lemma vnorm_triangle a b : vnorm (vadd a b) <= vnorm a + vnorm b.
+Proof.
+  pose proof (vnorm_nonneg a). pose proof (vnorm_nonneg b).
+  unfold vnorm at 1. rewrite <- (sqrt_square (vnorm a + vnorm b)) by lra.
+  apply sqrt_le_1_alt. rewrite dot_vadd. pose proof (dot_le_norms a b).
+  pose proof (vnorm_sqr a). pose proof (vnorm_sqr b). nra.
+Qed.
+
+Lemma vsub_split u v w : vsub u w = vadd (vsub u v) (vsub v w).
+Proof. destruct u as [[? ?] ?], v as [[? ?] ?], w as [[? ?] ?]. unfold vsub, vadd. apply vec_eq; ring. Qed.
+
+Lemma chord_triangle u v w : chord u w <= chord u v + chord v w.
+Proof. unfold chord. rewrite (vsub_split u v w). apply vnorm_triangle. Qed.
+
+Lemma Rx_vsub a u v : Rx a (vsub u v) = vsub (Rx a u) (Rx a v).
+Proof. destruct u as [[? ?] ?], v as [[? ?] ?]. unfold Rx, vsub. apply vec_eq; ring. Qed.
+Lemma Rz_vsub a u v : Rz a (vsub u v) = vsub (Rz a u) (Rz a v).
+Proof. destruct u as [[? ?] ?], v as [[? ?] ?]. unfold Rz, vsub. apply vec_eq; ring. Qed.
+
+Lemma vnorm_Rx a v : vnorm (Rx a v) = vnorm v.
+Proof. unfold vnorm. rewrite dot_Rx. reflexivity. Qed.
+Lemma vnorm_Rz a v : vnorm (Rz a v) = vnorm v.
+Proof. unfold vnorm. rewrite dot_Rz. reflexivity. Qed.
+
+Lemma chord_Rx a u v : chord (Rx a u) (Rx a v) = chord u v.
+Proof. unfold chord. rewrite <- Rx_vsub. apply vnorm_Rx. Qed.
+Lemma chord_Rz a u v : chord (Rz a u) (Rz a v) = chord u v.
+Proof. unfold chord. rewrite <- Rz_vsub. apply vnorm_Rz. Qed.
+
+(* sin^2 x <= x^2 and 2 - 2 cos a <= a^2 (chord <= arc) *)
+Lemma sin_sqr_le x : sin x * sin x <= x * x.
+Proof.
+  assert (Hpos : forall y, 0 < y -> sin y * sin y <= y * y).
+  { intros y Hy. destruct (Rle_dec 1 y) as [H1|H1].
+    - pose proof (SIN_bound y). nra.
+    - assert (0 <= sin y) by (apply sin_ge_0; [lra | pose proof PI_RGT_0; pose proof PI2_1; lra]).
+      pose proof (sin_lt_x y Hy). nra. }
+  destruct (Rtotal_order x 0) as [H|[H|H]].
+  - pose proof (Hpos (- x) ltac:(lra)) as Hn. rewrite sin_neg in Hn. nra.
+  - subst x. rewrite sin_0. lra.
+  - apply Hpos. exact H.
+Qed.
+
+Lemma two_minus_two_cos a : 2 - 2 * cos a <= a * a.
+Proof.
+  pose proof (hav_cos a) as H. unfold hav in H.
+  pose proof (sin_sqr_le (a / 2)). nra.
+Qed.
+
+Lemma chord_Rz_self a v : chord (Rz a v) v <= Rabs a * vnorm v.
+Proof.
+  unfold chord, vnorm. rewrite <- (sqrt_Rsqr_abs a), <- sqrt_mult_alt by apply Rle_0_sqr.
+  apply sqrt_le_1_alt. destruct v as [[x y] z]. unfold Rz, vsub, dot, Rsqr.
+  pose proof (two_minus_two_cos a) as Hc. pose proof (sin2_eq a) as Hs.
+  assert (E : (cos a * x - sin a * y - x) * (cos a * x - sin a * y - x)
+              + (sin a * x + cos a * y - y) * (sin a * x + cos a * y - y) + (z - z) * (z - z)
+              = (2 - 2 * cos a) * (x * x + y * y)).
+  { nsatz. }
+  rewrite E. assert (0 <= x * x + y * y) by nra. assert (0 <= z * z) by nra. nra.
+Qed.
+
+Lemma chord_Rx_self a v : chord (Rx a v) v <= Rabs a * vnorm v.
+Proof.
+  unfold chord, vnorm. rewrite <- (sqrt_Rsqr_abs a), <- sqrt_mult_alt by apply Rle_0_sqr.
+  apply sqrt_le_1_alt. destruct v as [[x y] z]. unfold Rx, vsub, dot, Rsqr.
+  pose proof (two_minus_two_cos a) as Hc. pose proof (sin2_eq a) as Hs.
+  assert (E : (x - x) * (x - x) + (cos a * y - sin a * z - y) * (cos a * y - sin a * z - y)
+              + (sin a * y + cos a * z - z) * (sin a * y + cos a * z - z)
+              = (2 - 2 * cos a) * (y * y + z * z)).
+  { nsatz. }
+  rewrite E. assert (0 <= y * y + z * z) by nra. assert (0 <= x * x) by nra. nra.
+Qed.
+
+(* a rotation about z by d, conjugating a rotation about x by a, differs from the latter only by
+   the commutator: chord <= 2 |a| |d| |w| *)
+Lemma commutator_identity a d w :
+  vsub (Rz d (Rx a (Rz (- d) w))) (Rx a w)
+  = vadd (vsub (Rz d (vsub (Rx a w) w)) (vsub (Rx a w) w))
+         (Rz d (vsub (Rx a (vsub (Rz (- d) w) w)) (vsub (Rz (- d) w) w))).
+Proof.
+  destruct w as [[x y] z]. unfold Rz, Rx, vsub, vadd. rewrite cos_neg, sin_neg.
+  pose proof (sin2_eq d) as Hs.
+  apply vec_eq; nsatz.
+Qed.
+
+Lemma chord_commutator a d w :
+  chord (Rz d (Rx a (Rz (- d) w))) (Rx a w) <= 2 * Rabs a * Rabs d * vnorm w.
+Proof.
+  unfold chord at 1. rewrite commutator_identity.
+  eapply Rle_trans; [apply vnorm_triangle|].
+  set (y := vsub (Rx a w) w). set (u := vsub (Rz (- d) w) w).
+  assert (Hy : vnorm y <= Rabs a * vnorm w) by apply chord_Rx_self.
+  assert (Hu : vnorm u <= Rabs d * vnorm w).
+  { pose proof (chord_Rz_self (- d) w) as H. rewrite Rabs_Ropp in H. exact H. }
+  assert (H1 : vnorm (vsub (Rz d y) y) <= Rabs d * vnorm y) by apply chord_Rz_self.
+  assert (H2 : vnorm (Rz d (vsub (Rx a u) u)) <= Rabs a * vnorm u).
+  { rewrite vnorm_Rz. apply chord_Rx_self. }
+  pose proof (Rabs_pos a). pose proof (Rabs_pos d). pose proof (vnorm_nonneg w).
+  pose proof (vnorm_nonneg y). pose proof (vnorm_nonneg u).
+  nra.
+Qed.
+
+(* ------------------------------------------------------------------ *)
+(** * ecliptical: there and back is within a small chord of the identity *)
+
+(* mismatch of the reverse-trip polynomials, arcseconds *)
+Definition dPi_as (T t : R) : R :=
+  0.0001 * t + 0.000042 * T * T * t + 0.000042 * T * t * t + 0.000006 * t * t * t.
+
+Lemma p_back T t : p_as (T + t) (- t) = - p_as T t.
+Proof. unfold p_as. dec_norm. field. Qed.
+Lemma pi_back T t : pi_as (T + t) (- t) = pi_as T t + p_as T t + dPi_as T t.
+Proof. unfold pi_as, p_as, dPi_as. dec_norm. field. Qed.
+Lemma eta_back T t : eta_as (T + t) (- t) = - eta_as T t - 0.00001 * t * t.
+Proof. unfold eta_as. dec_norm. field. Qed.
+
+(* generic: angles of the two trips related by  P' = -P,  Pi' = Pi + P + dl,  E' = -E - de *)
+Theorem rot_ecl_back_chord E Pi P dl de v :
+  chord (rot_ecl (- E - de) (Pi + P + dl) (- P) (rot_ecl E Pi P v)) v
+  <= (2 * Rabs (- E - de) * Rabs dl + Rabs de) * vnorm v.
+Proof.
+  unfold rot_ecl.
+  rewrite (Rz_add (- (Pi + P + dl)) (P + Pi)).
+  replace (- (Pi + P + dl) + (P + Pi)) with (- dl) by ring.
+  replace (- P + (Pi + P + dl)) with (Pi + dl) by ring.
+  rewrite <- (Rz_add Pi dl).
+  set (w0 := Rz (- Pi) v). set (w := Rx (- E) w0). set (a := - (- E - de)).
+  assert (Hv : v = Rz Pi w0) by (unfold w0; rewrite Rz_inv'; reflexivity).
+  match goal with |- chord ?X v <= _ =>
+    replace (chord X v) with (chord X (Rz Pi w0)) by (f_equal; symmetry; exact Hv) end.
+  rewrite chord_Rz.
+  eapply Rle_trans; [apply (chord_triangle _ (Rx a w) _)|].
+  assert (H1 : chord (Rz dl (Rx a (Rz (- dl) w))) (Rx a w) <= 2 * Rabs a * Rabs dl * vnorm w)
+    by apply chord_commutator.
+  assert (H2 : chord (Rx a w) w0 <= Rabs de * vnorm w0).
+  { unfold w. rewrite Rx_add. replace (a + - E) with de by (unfold a; ring). apply chord_Rx_self. }
+  assert (Hw : vnorm w = vnorm v) by (unfold w, w0; rewrite vnorm_Rx, vnorm_Rz; reflexivity).
+  assert (Hw0 : vnorm w0 = vnorm v) by (unfold w0; apply vnorm_Rz).
+  rewrite Hw in H1. rewrite Hw0 in H2.
+  replace (Rabs (- E - de)) with (Rabs a) by (unfold a; apply Rabs_Ropp).
+  lra.
+Qed.
+
+Lemma Rabs_d2r x : Rabs (d2r x) = Rabs x * (PI / 180).
+Proof.
+  unfold d2r. rewrite Rabs_mult. f_equal. apply Rabs_right.
+  pose proof PI_RGT_0. apply Rle_ge. apply Rlt_le. apply Rdiv_lt_0_compat; lra.
+Qed.
+
+Lemma Rabs_div3600 a : Rabs (a / 3600) = Rabs a / 3600.
+Proof. unfold Rdiv. rewrite Rabs_mult, (Rabs_right (/ 3600)) by lra. reflexivity. Qed.
+
+(* the three rotation angles of the ecliptical routine, radians *)
+Definition ecl_E (T t : R) : R := d2r (eta_as T t / 3600).
+Definition ecl_Pi (T t : R) : R := d2r (pi_as T t / 3600 + pi0_deg).
+Definition ecl_P (T t : R) : R := d2r (p_as T t / 3600).
+
+(* starting and final epoch both within 5 centuries of J2000: the there-and-back image of any
+   vector is within 6e-9 |v| of v (chord; 6e-9 rad = 3.44e-7 degree on the unit sphere) *)
+Theorem rot_ecl_there_and_back T U v : -5 <= T <= 5 -> -5 <= U <= 5 ->
+  let t := U - T in
+  chord (rot_ecl (ecl_E U (- t)) (ecl_Pi U (- t)) (ecl_P U (- t))
+           (rot_ecl (ecl_E T t) (ecl_Pi T t) (ecl_P T t) v)) v
+  <= 6 / 1000000000 * vnorm v.
+Proof.
+  intros HT HU t.
+  set (de := d2r (0.00001 * t * t / 3600)). set (dl := d2r (dPi_as T t / 3600)).
+  assert (EU : U = T + t) by (unfold t; ring).
+  assert (E1 : ecl_E U (- t) = - ecl_E T t - de).
+  { unfold ecl_E, de. rewrite EU, eta_back. unfold d2r. field. }
+  assert (E2 : ecl_Pi U (- t) = ecl_Pi T t + ecl_P T t + dl).
+  { unfold ecl_Pi, ecl_P, dl. rewrite EU, pi_back. unfold d2r. field. }
+  assert (E3 : ecl_P U (- t) = - ecl_P T t).
+  { unfold ecl_P. rewrite EU, p_back. unfold d2r. field. }
+  rewrite E2, E3. rewrite E1 at 1.
+  eapply Rle_trans; [apply rot_ecl_back_chord|].
+  apply Rmult_le_compat_r; [apply vnorm_nonneg|].
+  rewrite <- E1.
+  assert (B1 : Rabs (eta_as U (- t)) <= 480).
+  { unfold t, eta_as. cbv [Q2R QArith_base.Qnum QArith_base.Qden]. interval. }
+  assert (B2 : Rabs (dPi_as T t) <= 4 / 100).
+  { unfold t, dPi_as. cbv [Q2R QArith_base.Qnum QArith_base.Qden]. interval. }
+  assert (B3 : Rabs (0.00001 * t * t) <= 1 / 1000).
+  { assert (-10 <= t <= 10) by (unfold t; lra). cbv [Q2R QArith_base.Qnum QArith_base.Qden].
+    assert (0 <= t * t <= 100) by nra. rewrite Rabs_right; lra. }
+  unfold ecl_E, dl, de. rewrite !Rabs_d2r.
+  rewrite !Rabs_div3600.
+  pose proof (Rabs_pos (eta_as U (- t))). pose proof (Rabs_pos (dPi_as T t)).
+  pose proof (Rabs_pos (0.00001 * t * t)).
+  assert (HPI : 0 < PI / 180 <= 1746 / 100000) by (split; interval).
+  set (x := Rabs (eta_as U (- t))) in *. set (y := Rabs (dPi_as T t)) in *.
+  set (w := Rabs (0.00001 * t * t)) in *. set (k := PI / 180) in *.
+  assert (x * y <= 480 * (4 / 100)) by nra.
+  assert (k * k <= 1746 / 100000 * (1746 / 100000)) by nra.
+  assert (0 <= x * y) by nra.
+  assert (x * y * (k * k) <= 480 * (4 / 100) * (1746 / 100000 * (1746 / 100000))) by nra.
+  assert (w * k <= 1 / 1000 * (1746 / 100000)) by nra.
+  replace (2 * (x / 3600 * k) * (y / 3600 * k) + w / 3600 * k)
+    with (2 / 12960000 * (x * y * (k * k)) + (w * k) / 3600) by field.
+  lra.
+Qed.
+
+(* ---- from chords to the angle between unit vectors ---- *)
+Lemma chord_sqr_unit u v : dot u u = 1 -> dot v v = 1 ->
+  chord u v * chord u v = 2 - 2 * dot u v.
+Proof.
+  intros Hu Hv. unfold chord. rewrite vnorm_sqr.
+  destruct u as [[a b] c], v as [[d e] f]. unfold dot, vsub in *. nra.
+Qed.
+
+(* a chord of 6e-9 between unit vectors is an angle below 1e-6 degree: cos(1e-6 deg) <= u.v *)
+Theorem chord_6e9_within_microdegree u v : dot u u = 1 -> dot v v = 1 ->
+  chord u v <= 6 / 1000000000 -> cos (d2r (1 / 1000000)) <= dot u v.
+Proof.
+  intros Hu Hv Hc. pose proof (chord_sqr_unit u v Hu Hv) as E.
+  assert (0 <= chord u v) by apply vnorm_nonneg.
+  assert (chord u v * chord u v <= 36 / 1000000000000000000) by nra.
+  assert (cos (d2r (1 / 1000000)) <= 1 - 18 / 1000000000000000000).
+  { unfold d2r. interval with (i_prec 200). }
+  lra.
 Qed.
